@@ -242,8 +242,24 @@ def gen_cases(chk, quick):
             continue
         for e in dict.fromkeys(engs):
             b = H.gen_body(rng)
+            if b['kind'] == 'leafalloca' and p['vararg']:
+                b['kind'] = 'alloca'
             if p['vararg'] and len(p['args']) > p['nfixed'] and rng.random() < 0.5:
                 b.update(vaplan=H.va_plan(rng, p), deadfx=rng.random() < 0.5)
+            cases.append(dict(proto=p, vals=vals, resvals=resvals, body=b, engine=e, junk=junk))
+    # LEAF functions that execute alloca with 1..24 simultaneously live values at every level: spill slots + saved
+    # callee-saved registers of both parities; every alloca result must be 16-byte aligned (and the contents survive)
+    lr = chk.rng('c06-leafalloca')
+    lprotos = [p for p in protos if p.get('leaf')] + [dict(args=['i64', 'blk:24', 'd'], nfixed=3, vararg=False, res=['i64']),
+                                                       dict(args=['i64'] * 8 + ['d'] * 9, nfixed=17, vararg=False, res=['d']),
+                                                       dict(args=['rblk:24', 'i64'], nfixed=2, vararg=False, res=[])]
+    for j, (b, engs) in enumerate(H.leafalloca_bodies(lr, quick)):
+        p = lprotos[j % len(lprotos)] if quick else lr.choice(lprotos)
+        vals, _ = G.gen_values(lr, p)
+        vals = G.fix_values(p, vals, lr)
+        resvals = H.res_values(lr, p)
+        junk = [lr.getrandbits(64) for _ in range(40)]
+        for e in dict.fromkeys(engs):
             cases.append(dict(proto=p, vals=vals, resvals=resvals, body=b, engine=e, junk=junk))
     # variadic MIR callees that SKIP arguments (va_arg / va_block_arg whose value is not looked at: result unused,
     # overwritten by the next va_arg, used on one path only; singly, in loops, in branches) of every class and then read
